@@ -20,12 +20,14 @@ CONSTANTS Universe,     \* tokens that may be notified
 None == [l |-> -1, t |-> -1, s |-> -1]
 
 VARIABLES expected, processed, ret,                 \* implementation: expectedSeqs, processedSeqs, value returned by the last tick
+          cancelled,                                \* implementation: the replicator context is done (every Add* then returns at once)
           threshold, restrict, feedOrdered,         \* configuration of this behaviour; ghost: inputs were in feed order so far
           everExp, everProc, ckpts, shE, shP, shRet, \* ghosts: history, persisted values, uncompacted shadow
           dupFree,                                   \* ghost: no token has been expected twice so far
+          accExp,                                    \* ghost: expectations registered before Cancel (everExp also holds the dropped ones)
           hist                                       \* behaviour so far (exported for replay; hidden by VIEW)
-impl   == <<expected, processed, ret>>
-ghost  == <<threshold, restrict, feedOrdered, everExp, everProc, ckpts, shE, shP, shRet, dupFree>>
+impl   == <<expected, processed, ret, cancelled>>
+ghost  == <<threshold, restrict, feedOrdered, everExp, everProc, ckpts, shE, shP, shRet, dupFree, accExp>>
 vars   == <<impl, ghost, hist>>
 view   == <<impl, ghost>>
 
@@ -73,37 +75,49 @@ Batches == UNION {[1..n -> Universe] : n \in 1..MaxBatch}
 
 -----------------------------------------------------------------------------
 Init ==
-  /\ expected = <<>> /\ processed = {} /\ ret = None
+  /\ expected = <<>> /\ processed = {} /\ ret = None /\ cancelled = FALSE
   /\ threshold \in Thresholds /\ restrict \in FeedModes /\ feedOrdered = TRUE
-  /\ everExp = {} /\ everProc = {} /\ ckpts = <<>> /\ shE = <<>> /\ shP = {} /\ shRet = None /\ dupFree = TRUE
+  /\ everExp = {} /\ everProc = {} /\ ckpts = <<>> /\ shE = <<>> /\ shP = {} /\ shRet = None /\ dupFree = TRUE /\ accExp = {}
   /\ hist = <<>>
 
-ImplExpect(ts)       == expected' = expected \o ts /\ processed' = processed /\ ret' = None
-GhostExpect(ts)      == /\ everExp' = everExp \cup Range(ts) /\ shE' = shE \o ts /\ shRet' = None
+(* after Cancel every notification is dropped (the `select <-c.ctx.Done()` at the top of each Add function) - but the
+   ghosts still record that the replicator WAS told to expect / that the change WAS processed *)
+Dropped == cancelled /\ UNCHANGED <<expected, processed>> /\ ret' = None /\ UNCHANGED cancelled
+ImplExpect(ts)       == \/ Dropped
+                        \/ ~cancelled /\ expected' = expected \o ts /\ processed' = processed /\ ret' = None /\ UNCHANGED cancelled
+GhostExpect(ts)      == /\ everExp' = everExp \cup Range(ts) /\ shE' = (IF cancelled THEN shE ELSE shE \o ts) /\ shRet' = None
                         /\ dupFree' = (dupFree /\ Range(ts) \cap everExp = {} /\ Cardinality(Range(ts)) = Len(ts))
                         /\ feedOrdered' = (feedOrdered /\ OrderedAfter(ts))
+                        /\ accExp' = (IF cancelled THEN accExp ELSE accExp \cup Range(ts))
                         /\ UNCHANGED <<threshold, restrict, everProc, ckpts, shP>>
-ImplAlreadyKnown(ts) == expected' = expected \o ts /\ processed' = processed \cup Range(ts) /\ ret' = None
+ImplAlreadyKnown(ts) == \/ Dropped
+                        \/ ~cancelled /\ expected' = expected \o ts /\ processed' = processed \cup Range(ts) /\ ret' = None /\ UNCHANGED cancelled
 GhostAlreadyKnown(ts) == /\ everExp' = everExp \cup Range(ts) /\ everProc' = everProc \cup Range(ts)
-                         /\ shE' = shE \o ts /\ shP' = shP \cup Range(ts) /\ shRet' = None
+                         /\ shE' = (IF cancelled THEN shE ELSE shE \o ts) /\ shP' = (IF cancelled THEN shP ELSE shP \cup Range(ts)) /\ shRet' = None
                          /\ dupFree' = (dupFree /\ Range(ts) \cap everExp = {} /\ Cardinality(Range(ts)) = Len(ts))
                          /\ feedOrdered' = (feedOrdered /\ OrderedAfter(ts))
+                         /\ accExp' = (IF cancelled THEN accExp ELSE accExp \cup Range(ts))
                          /\ UNCHANGED <<threshold, restrict, ckpts>>
-ImplProcessed(s)    == processed' = processed \cup {s} /\ expected' = expected /\ ret' = None
-GhostProcessed(s)   == /\ everProc' = everProc \cup {s} /\ shP' = shP \cup {s} /\ shRet' = None
-                       /\ UNCHANGED <<threshold, restrict, feedOrdered, everExp, ckpts, shE, dupFree>>
+ImplProcessed(s)    == \/ Dropped
+                       \/ ~cancelled /\ processed' = processed \cup {s} /\ expected' = expected /\ ret' = None /\ UNCHANGED cancelled
+GhostProcessed(s)   == /\ everProc' = everProc \cup {s} /\ shP' = (IF cancelled THEN shP ELSE shP \cup {s}) /\ shRet' = None
+                       /\ UNCHANGED <<threshold, restrict, feedOrdered, everExp, ckpts, shE, dupFree, accExp>>
 ImplTick ==
   \E p \in SortedOf(expected) :
     LET r == Trim(p, processed)
         c == Compact(r.E, r.P, threshold) IN
-    expected' = c.E /\ processed' = c.P /\ ret' = r.ret
+    expected' = c.E /\ processed' = c.P /\ ret' = r.ret /\ UNCHANGED cancelled
 GhostTick ==           \* refers to ret' (already determined by ImplTick or by the logged value)
   /\ ckpts' = IF ret' # None THEN Append(ckpts, ret') ELSE ckpts
   /\ \E q \in SortedOf(shE) :
        LET r == Trim(q, shP) IN shE' = r.E /\ shP' = r.P /\ shRet' = r.ret
-  /\ UNCHANGED <<threshold, restrict, feedOrdered, everExp, everProc, dupFree>>
+  /\ UNCHANGED <<threshold, restrict, feedOrdered, everExp, everProc, dupFree, accExp>>
+
+ImplCancel  == cancelled' = TRUE /\ UNCHANGED <<expected, processed>> /\ ret' = None
+GhostCancel == shRet' = None /\ UNCHANGED <<threshold, restrict, feedOrdered, everExp, everProc, ckpts, shE, shP, dupFree, accExp>>
 
 Step(a, ts) == hist' = Append(hist, [a |-> a, toks |-> ts])
+Cancel == ~cancelled /\ ImplCancel /\ GhostCancel /\ Step("Cancel", <<>>)
 
 Expect(ts)       == FeedOK(ts) /\ ImplExpect(ts) /\ GhostExpect(ts) /\ Step("Expect", ts)
 AlreadyKnown(ts) == FeedOK(ts) /\ ImplAlreadyKnown(ts) /\ GhostAlreadyKnown(ts) /\ Step("AlreadyKnown", ts)
@@ -115,12 +129,16 @@ Next ==
   /\ \/ \E ts \in Batches : Expect(ts) \/ AlreadyKnown(ts)
      \/ \E s \in Universe : Processed(s)
      \/ Tick
+     \/ Cancel
 Spec == Init /\ [][Next]_vars
 
 -----------------------------------------------------------------------------
 (* C17 *)
 SafeCkpt ==        \* the value handed to persistence never runs ahead of unprocessed expected changes
-  ret # None => \A e \in everExp : (e = ret \/ Before(e, ret)) => e \in everProc
+  ret # None => \A e \in everExp : (e = ret \/ Before(e, ret)) =>
+                    (e \in everProc \/ (e \notin accExp /\ ~feedOrdered))
+  \* a notification dropped during shutdown cannot hold back the final checkpoint; with an ordered feed it
+  \* never needs to (nothing dropped sorts before something registered), which is what the clause demands
 NoRegress ==     \* persisted checkpoints never move backwards (given an ordered feed)
   feedOrdered => \A i \in 1..(Len(ckpts) - 1) : ~Before(ckpts[i + 1], ckpts[i])
 IsChain(S) == \A a, b \in S : a = b \/ Before(a, b) \/ Before(b, a)
@@ -133,6 +151,6 @@ CompactionTransparent ==
 CompactionNeverAhead ==
   IsChain(everExp) => (ret = None \/ (shRet # None /\ (ret = shRet \/ Before(ret, shRet))))
 (* nothing expected is forgotten before it is processed *)
-NoLoss == \A e \in everExp : e \in everProc \/ e \in Range(expected)
+NoLoss == \A e \in accExp : e \in everProc \/ e \in Range(expected)
 TypeOK == /\ expected \in Seq(Universe) /\ processed \subseteq Universe /\ ret \in Universe \cup {None}
 =============================================================================
